@@ -103,7 +103,9 @@ func concApps() []concApp {
 	}
 }
 
-func concRun(a concApp, argv []string) (res string) {
+// concRun builds and runs one application. With envChanges the environment variables the applications read at declaration time
+// are given other values between the declaration and Run (and restored afterwards): the outcome must not depend on them.
+func concRun(a concApp, argv []string, envChanges bool) (res string) {
 	var out []string
 	defer func() {
 		if v := recover(); v != nil {
@@ -117,6 +119,16 @@ func concRun(a concApp, argv []string) (res string) {
 	}()
 	app := a.build(&out)
 	app.ErrorHandling = flag.ContinueOnError
+	if envChanges {
+		os.Setenv("VERIF_CONC_E", "changed-after-declaration")
+		os.Setenv("VERIF_CONC_L", "77")
+		os.Setenv("VERIF_CONC_U", "late")
+		defer func() {
+			os.Setenv("VERIF_CONC_E", "from-env")
+			os.Setenv("VERIF_CONC_L", "5, 6")
+			os.Unsetenv("VERIF_CONC_U")
+		}()
+	}
 	if err := app.Run(append([]string{a.name}, argv...)); err != nil {
 		out = append(out, "ERR:"+err.Error())
 	}
@@ -163,7 +175,7 @@ func init() {
 		// 1. every case alone, in declaration order: the reference outcome of this very build of the library
 		ref := make([]string, len(cases))
 		for i, c := range cases {
-			ref[i] = concRun(c.a, c.argv)
+			ref[i] = concRun(c.a, c.argv, false)
 			rep.Sequential++
 		}
 		rep.Samples = append(rep.Samples, ref[1], ref[8], ref[13])
@@ -176,10 +188,14 @@ func init() {
 		rnd := rand.New(rand.NewSource(int64(seed)))
 		for r := 0; r < rounds; r++ {
 			for _, i := range rnd.Perm(len(cases)) {
-				got := concRun(cases[i].a, cases[i].argv)
+				got := concRun(cases[i].a, cases[i].argv, r%2 == 1)
 				rep.Sequential++
 				if got != ref[i] {
-					mism("order", i, got)
+					if r%2 == 1 {
+						mism("order, environment changed after the declaration", i, got)
+					} else {
+						mism("order", i, got)
+					}
 				}
 			}
 		}
@@ -193,7 +209,7 @@ func init() {
 				lr := rand.New(rand.NewSource(int64(seed*1000 + g)))
 				for r := 0; r < rounds; r++ {
 					for _, i := range lr.Perm(len(cases)) {
-						got := concRun(cases[i].a, cases[i].argv)
+						got := concRun(cases[i].a, cases[i].argv, false)
 						mu.Lock()
 						rep.Concurrent++
 						if got != ref[i] {
